@@ -241,6 +241,11 @@ def tap_step(s, led):
     return real
 
 
+def untap_step(s):
+    for a in ('Step', '_bootstrap_objective'):
+        s.__dict__.pop(a, None)
+
+
 # ======================================================================= programs
 def gen_term(rng, solver):
     r = rng.random()
@@ -312,12 +317,17 @@ def gen_program(rng, focus):
         elif r < 0.86: ops.append(['objective', rng.choice(['same', 'new'])])
         elif r < 0.90: ops.append(['stepmon', rng.choice(['plain', 'verbose', 'logging']), False])
         elif r < 0.94: ops.append(['evalmon', rng.choice(['plain', 'verbose', 'logging']), rng.random() < 0.3])
-        elif r < 0.97: ops.append(['finalize'])
+        elif r < 0.955: ops.append(['finalize'])
+        elif r < 0.985:
+            mode = rng.choice(['save', 'periodic', 'periodic', 'dill'])
+            if mode == 'periodic': ops.append(['step', rng.randint(1, 3)])      # the periodic dump is the state after the last iterating Step
+            ops.append(['reload', mode])
         else:
             G = rng.choice([5, 10, 20])
             ops.append(['solve_exit', G, None, rng.choice(['callback', 'cost']), rng.randint(1, 6)])
     if focus == 'c05' and rng.random() < 0.4:
         ops.append(['solve_exit', rng.choice([8, 15]), None, rng.choice(['callback', 'cost']), rng.randint(1, 12)])
+    cfg['savefreq'] = rng.random() < 0.6
     cfg['ops'] = ops
     return cfg
 
@@ -359,6 +369,8 @@ def run_program(cfg, obs, focus, tmpdir):
         led.probe.f = (lambda x, sc=sc: sc * raw0(x))
         return (lambda x: base(x))
     s.SetObjective(objective_factory())
+    savefile = os.path.join(tmpdir, 'periodic.pkl')
+    if cfg.get('savefreq'): s.SetSaveFrequency(1, savefile)
     kw = K.step_kwargs(cfg)
     real_step = tap_step(s, led)
     done = []
@@ -465,6 +477,35 @@ def run_program(cfg, obs, focus, tmpdir):
                 if live: led.evalmon_live_since = led.probe.n
             elif k == 'finalize':
                 s.Finalize()
+            elif k == 'reload':
+                # restart: the solver is replaced by its restored copy; every ledger invariant (counters over the solver's whole
+                # life, monitors, history, records) must carry on unchanged
+                import dill
+                from mystic.solvers import LoadSolver
+                mode = op[1]
+                logging_monitors = any(type(m).__name__ == 'LoggingMonitor' for m in (s._stepmon, s._evalmon))
+                if logging_monitors:
+                    obs.event('reload_skipped_logging_monitor')
+                else:
+                    untap_step(s)
+                    if mode == 'periodic' and not (cfg.get('savefreq') and led.stepped and not led.last_refused and not led.dirty and os.path.exists(savefile)
+                                                   and done[-2:-1] and done[-2][0] in ('step', 'solve', 'solve_exit')):
+                        mode = 'save'
+                    if mode == 'periodic':
+                        s2 = LoadSolver(savefile)
+                    elif mode == 'save':
+                        fn = os.path.join(tmpdir, 'restart-%d.pkl' % len(done))
+                        s.SaveSolver(fn); s2 = LoadSolver(fn)
+                    else:
+                        s2 = dill.loads(dill.dumps(s))
+                    op[1] = mode
+                    had_evalmon = led.evalmon is not None
+                    untap_step(s2)          # a periodic dump written during a tapped Step carries the harness closures: drop them
+                    s = s2; led.solver = s
+                    if had_evalmon: led.evalmon = s._evalmon
+                    real_step = tap_step(s, led)
+                    restarts += 1
+                    obs.event('restarts:' + mode)
             if k not in ('step', 'solve', 'solve_exit'):
                 led.after_call(s, k)
             if nreconf and led.stepped > before: iters_after_reconf += led.stepped - before
